@@ -197,6 +197,8 @@ fn binv<R: Rng + ?Sized>(binv: Binv, flipped: bool, rng: &mut R) -> u64 {
             u -= r;
             x += 1;
             if x > BINV_MAX_X {
+                #[cfg(rand_distr_verif)]
+                crate::verif_hooks::probe(25);
                 continue 'outer;
             }
             r *= binv.a / (x as f64) - binv.s;
@@ -255,6 +257,8 @@ fn btpe<R: Rng + ?Sized>(btpe: Btpe, flipped: bool, rng: &mut R) -> u64 {
         let u = gen_u.sample(rng);
         let mut v = gen_v.sample(rng);
         if !(u > p1) {
+            #[cfg(rand_distr_verif)]
+            crate::verif_hooks::probe(26);
             y = f64_to_u64(x_m - p1 * v + u);
             break;
         }
@@ -265,16 +269,24 @@ fn btpe<R: Rng + ?Sized>(btpe: Btpe, flipped: bool, rng: &mut R) -> u64 {
             let x = x_l + (u - p1) / c;
             v = v * c + 1.0 - (x - x_m).abs() / p1;
             if v > 1. {
+                #[cfg(rand_distr_verif)]
+                crate::verif_hooks::probe(27);
                 continue;
             } else {
+                #[cfg(rand_distr_verif)]
+                crate::verif_hooks::probe(28);
                 y = f64_to_u64(x);
             }
         } else if !(u > p3) {
             // Step 3: Region 3, left exponential tail.
             let y_tmp = x_l + v.ln() / lambda_l;
             if y_tmp < 0.0 {
+                #[cfg(rand_distr_verif)]
+                crate::verif_hooks::probe(29);
                 continue;
             } else {
+                #[cfg(rand_distr_verif)]
+                crate::verif_hooks::probe(30);
                 y = f64_to_u64(y_tmp);
                 v *= (u - p2) * lambda_l;
             }
@@ -282,8 +294,12 @@ fn btpe<R: Rng + ?Sized>(btpe: Btpe, flipped: bool, rng: &mut R) -> u64 {
             // Step 4: Region 4, right exponential tail.
             y = (x_r - v.ln() / lambda_r) as u64; // `as` cast saturates
             if y > btpe.n {
+                #[cfg(rand_distr_verif)]
+                crate::verif_hooks::probe(31);
                 continue;
             } else {
+                #[cfg(rand_distr_verif)]
+                crate::verif_hooks::probe(32);
                 v *= (u - p3) * lambda_r;
             }
         }
@@ -295,6 +311,8 @@ fn btpe<R: Rng + ?Sized>(btpe: Btpe, flipped: bool, rng: &mut R) -> u64 {
         if !(k > SQUEEZE_THRESHOLD && (k as f64) < 0.5 * npq - 1.) {
             // Step 5.1: Evaluate f(y) via the recursive relationship. Start the
             // search from the mode.
+            #[cfg(rand_distr_verif)]
+            crate::verif_hooks::probe(33);
             let s = btpe.p / q;
             let a = s * (n as f64 + 1.);
             let mut f = 1.0;
@@ -335,9 +353,13 @@ fn btpe<R: Rng + ?Sized>(btpe: Btpe, flipped: bool, rng: &mut R) -> u64 {
         let t = -0.5 * k * k / npq;
         let alpha = v.ln();
         if alpha < t - rho {
+            #[cfg(rand_distr_verif)]
+            crate::verif_hooks::probe(34);
             break;
         }
         if alpha > t + rho {
+            #[cfg(rand_distr_verif)]
+            crate::verif_hooks::probe(35);
             continue;
         }
 
@@ -371,9 +393,13 @@ fn btpe<R: Rng + ?Sized>(btpe: Btpe, flipped: bool, rng: &mut R) -> u64 {
                 - stirling(x1)
                 - stirling(w)
         {
+            #[cfg(rand_distr_verif)]
+            crate::verif_hooks::probe(36);
             continue;
         }
 
+        #[cfg(rand_distr_verif)]
+        crate::verif_hooks::probe(37);
         break;
     }
 
